@@ -80,28 +80,29 @@ var c15faultCtr = func() map[string]int {
 // the prover's own choosing.  Index 0 (the simplest draw) is the order-2 point.
 var c15torsionPick = []int{4, 4, 4, 2, 6, 1, 3, 5, 7, 0}
 
-// c15torsionOrder[i] is the order of curve.EIGHT_TORSION[i], computed, not assumed.
-var c15torsionOrder = func() [8]int {
-	var o [8]int
-	if ColdStart() {
-		return o
-	}
-	for i, T := range curve.EIGHT_TORSION {
-		var acc curve.EdwardsPoint
-		acc.Identity()
-		for m := 1; m <= 8; m++ {
-			acc.Add(&acc, T)
-			if acc.IsIdentity() {
-				o[i] = m
-				break
+// c15TorsionOrder(i) is the order of curve.EIGHT_TORSION[i], computed, not assumed
+// (lazily: package initialisers never call into the library under test).
+var c15torsionOrderMemo [8]int
+
+func c15TorsionOrder(i int) int {
+	if c15torsionOrderMemo[0] == 0 {
+		for i, T := range curve.EIGHT_TORSION {
+			var acc curve.EdwardsPoint
+			acc.Identity()
+			for m := 1; m <= 8; m++ {
+				acc.Add(&acc, T)
+				if acc.IsIdentity() {
+					c15torsionOrderMemo[i] = m
+					break
+				}
+			}
+			if c15torsionOrderMemo[i] == 0 {
+				c15torsionOrderMemo[i] = 9 // broken group law on this tree: not this check's business
 			}
 		}
-		if o[i] == 0 {
-			panic("harness: EIGHT_TORSION entry of order > 8")
-		}
 	}
-	return o
-}()
+	return c15torsionOrderMemo[i]
+}
 
 var c15entropyCfg = simio.EntropyCfg{Chunking: true, Degenerate: true, Errors: true, ErrWindow: 40}
 
@@ -526,7 +527,7 @@ func (c *c15Run) alter(base c15Proof) {
 		pi = c.forge(pk, edBytes(curve.EIGHT_TORSION[gi]), alpha, v10)
 		name = "pk-small-order-with-matching-forgery"
 	case 9: // non-canonical public key; where its point has small order, optionally with the fitting forgery
-		pk = clone(nonCanonicalPoints[t.W(len(nonCanonicalPoints))])
+		pk = clone(ncPoints()[t.W(len(ncPoints()))])
 		name = "pk-non-canonical"
 		if t.W(2) == 1 {
 			var cy curve.CompressedEdwardsY
@@ -539,7 +540,7 @@ func (c *c15Run) alter(base c15Proof) {
 			}
 		}
 	case 10:
-		copy(pi[:32], nonCanonicalPoints[t.W(len(nonCanonicalPoints))])
+		copy(pi[:32], ncPoints()[t.W(len(ncPoints()))])
 		name = "gamma-non-canonical"
 	case 11: // another key
 		seed := c.g.Bytes(32)
@@ -597,7 +598,7 @@ func (c *c15Run) alter(base c15Proof) {
 func (c *c15Run) byzantine(v10 bool) {
 	t, r := c.t, c.r
 	ti := c15torsionPick[t.W(len(c15torsionPick))]
-	ord := c15torsionOrder[ti]
+	ord := c15TorsionOrder(ti)
 	x := edSecretScalar(c.sk)
 	H := model.ECVRFEncodeToCurve(c.pk, c.alpha)
 	var gamma, U, V curve.EdwardsPoint
